@@ -4,4 +4,4 @@ cd /repo || exit 1
 out=$(/venv/bin/python -m pytest -q -p no:cacheprovider --timeout=900 --continue-on-collection-errors 2>&1 | tail -3)
 echo "$out"
 echo "$out" | grep -q "^1400 passed" || { echo "SUITE NOT GREEN - not committing"; exit 1; }
-git add -u && git commit -qm "$1" && git log --oneline | head -1
+rm -f oi.html; git add -u && git commit -qm "$1" && git log --oneline | head -1
